@@ -71,6 +71,13 @@ type Walker struct {
 	Inline      bool                    // translate calls of one-line boolean helpers through InlineHook (opt-in per rule)
 	subst       map[types.Object]string // parameter -> rendered argument while a boolean helper is inlined
 	inlineDepth int
+	baseInfo    *types.Info
+	// AtCalls is scratch space for rules: facts recorded at calls of interest.
+	AtCalls []CallFact
+	// NoInline keeps the calls it accepts opaque although Inline is set.
+	NoInline func(info *types.Info, call *ast.CallExpr) bool
+	// CallAtoms: the boolean calls that were given an opaque atom (not inlined), with that atom.
+	CallAtoms map[*ast.CallExpr]string
 }
 
 type boolDef struct {
@@ -337,9 +344,21 @@ func flipOp(op token.Token) token.Token {
 	return op
 }
 
+// CallFact is a call with the path condition under which it runs.
+type CallFact struct {
+	Call *ast.CallExpr
+	F    Formula
+}
+
+// InlineClause is one guard clause of a boolean helper.
+type InlineClause struct {
+	Cond, Result ast.Expr
+}
+
 // InlineBody describes a pure boolean helper `func f(p1, ..., pn) bool { return Expr }`.
 type InlineBody struct {
 	Expr   ast.Expr
+	Guards []InlineClause // guard clauses `if Cond { return Result }` that precede the final `return Expr`
 	Params []*types.Var
 	Recv   *types.Var
 	Info   *types.Info
@@ -354,7 +373,9 @@ var InlineHook func(info *types.Info, call *ast.CallExpr) *InlineBody
 // Cond translates a boolean expression into a formula.
 func (w *Walker) Cond(e ast.Expr) Formula {
 	e = ast.Unparen(e)
-	if w.Atomize != nil && w.inlineDepth == 0 {
+	if w.Atomize != nil && (w.inlineDepth == 0 || w.Info == w.baseInfo) {
+		// (the rule's atomizer holds the type information of the analysed function's package: inside an inlined
+		// helper it applies only when the helper is of the same package)
 		if f := w.Atomize(w, e); f != nil {
 			return f
 		}
@@ -391,7 +412,7 @@ func (w *Walker) Cond(e ast.Expr) Formula {
 		}
 		return Atom("b:" + w.Path(e))
 	case *ast.CallExpr:
-		if w.Inline && InlineHook != nil && w.inlineDepth < 2 {
+		if w.Inline && InlineHook != nil && w.inlineDepth < 2 && !(w.NoInline != nil && w.NoInline(w.Info, x)) {
 			if ib := InlineHook(w.Info, x); ib != nil && len(ib.Params) == len(x.Args) {
 				sub := map[types.Object]string{}
 				for i, p := range ib.Params {
@@ -403,14 +424,32 @@ func (w *Walker) Cond(e ast.Expr) Formula {
 					}
 				}
 				oldInfo, oldSub := w.Info, w.subst
+				if w.inlineDepth == 0 {
+					w.baseInfo = w.Info
+				}
 				w.Info, w.subst = ib.Info, sub
 				w.inlineDepth++
-				f := w.Cond(ib.Expr)
+				var f Formula = False{}
+				var neg Formula = True{}
+				for _, g := range ib.Guards {
+					c := w.Cond(g.Cond)
+					f = MkOr(f, MkAnd(neg, MkAnd(c, w.Cond(g.Result))))
+					neg = MkAnd(neg, MkNot(c))
+				}
+				if len(ib.Guards) == 0 {
+					f = w.Cond(ib.Expr)
+				} else {
+					f = MkOr(f, MkAnd(neg, w.Cond(ib.Expr)))
+				}
 				w.inlineDepth--
 				w.Info, w.subst = oldInfo, oldSub
 				return f
 			}
 		}
+		if w.CallAtoms == nil {
+			w.CallAtoms = map[*ast.CallExpr]string{}
+		}
+		w.CallAtoms[x] = "b:" + w.Path(e)
 		return Atom("b:" + w.Path(e))
 	case *ast.SelectorExpr, *ast.IndexExpr, *ast.StarExpr:
 		return Atom("b:" + w.Path(e))
@@ -591,6 +630,7 @@ func (w *Walker) block(stmts []ast.Stmt, f Formula) Formula {
 	for _, s := range stmts {
 		f = w.stmt(s, f)
 	}
+	w.refine(f) // the end of a block is a statement boundary too: the facts are still the path's own here
 	return f
 }
 
